@@ -118,6 +118,15 @@ GNextTxnSmall ==
                 Poll(s, 0) /\ lim' = [lim EXCEPT ![s] = [i \in DOMAIN lim[s] |-> [lim[s][i] EXCEPT !.seen = TRUE]]]
 GSpecTxnSmall == GInit /\ [][GNextTxnSmall]_gvars
 
+(* wake-ups around multi-diff batches: tiny alphabet, deep complete trees *)
+GNextTxnWake ==
+    \/ /\ txn.open /\ (PushBack("t", fresh) \/ SetAt("t", 0, fresh, "Set") \/ TxnCommit) /\ UNCHANGED <<pipes, lim>>
+    \/ /\ ~txn.open /\ UNCHANGED pipes
+       /\ \/ (TxnBegin \/ PushBack("v", fresh) \/ DropVector) /\ UNCHANGED lim
+          \/ \E s \in 1..Len(pipes) :
+                Poll(s, 0) /\ lim' = [lim EXCEPT ![s] = [i \in DOMAIN lim[s] |-> [lim[s][i] EXCEPT !.seen = TRUE]]]
+GSpecTxnWake == GInit /\ [][GNextTxnWake]_gvars
+
 (* a compact core of operations for COMPLETE trees (every path): adapters keep internal state the    *)
 (* generator knows nothing about (parked diffs, index tables), so one behaviour per transition is not *)
 (* enough; every path of a small depth over this core is.                                           *)
